@@ -16,12 +16,22 @@ Shape (DESIGN.md §4): the blocking client is a pure function threading the whol
   blocks followed by the marker `endRetx` (= the assignment `self._retransmitting = False` after
   the loop).  `run` has explicit fuel; `Res.fuel` is a distinct outcome (never produced for the
   fuel the driver passes; see `CanopenProofs/C12.lean`).
-* Exceptions: `Res.err` (SdoCommunicationError, SdoAbortedError, RuntimeError, the caller's
-  failure on a `None` return) — no finer than the property ("fails visibly").
-* The caller: a RawIOBase caller that offers the unsent remainder and advances by the returned
-  count makes `write` see exactly the 7-byte chunks of the payload (`chunks7`), because `write`
-  looks at `b[0:7]` only and returns `len(b[0:7])` or `None`.  `close()` always runs when the
-  `with` block is left, also after an exception.
+* Exceptions: `Res.err` (SdoCommunicationError, SdoAbortedError, RuntimeError) — no finer than
+  the property ("fails visibly").
+* `write(b)` (repaired code): the bytes accepted so far that do not fill a segment are kept in
+  `_pending` (`Cl.pend`); `write` takes `b[0:7-len(_pending)]`, sends `_pending + taken` when that
+  reaches the declared size (last segment) or is 7 bytes long, keeps it otherwise, and always
+  returns the number of bytes taken (`takenLen`).  `close()` sends a kept partial segment as the
+  last one (size not known in advance) before the end request.
+* The caller.  (i) `Item.feed rem offers` is any RawIOBase caller: raw `write` calls offering
+  prefixes of the unsent remainder `rem` of the lengths `offers` (then, while something is left,
+  the whole remainder) and advancing by the count returned — io.BufferedWriter (the correspondence
+  replays the offers it made) as well as the hand loop `pos += fp.write(data[pos:])` (`offers =
+  []`).  (ii) The hand loop makes `write` see exactly the 7-byte chunks of the payload
+  (`chunks7`): `blockDownloadFrom` is written with these chunks as pending `write` calls, and
+  `CanopenProofs/C12.lean` (`hand_loop_is_chunks`) proves it equal to the `feed` form.
+  `close()` always runs when the `with` block is left, also after an exception.  Not modelled:
+  a BufferedWriter that, after a raw `write` raised, offers its buffer once more when it is closed.
 * C07 (disturbed responses): `Env.dist = some (at, kind)` alters the server's `at`-th response frame
   on its way into the client's queue (`Sdo/Disturb.lean`'s kinds: lost, replaced, bit 4 flipped,
   wrong command specifier, wrong multiplexer, duplicated, duplicated later, late, stale frame in
@@ -61,6 +71,7 @@ structure Cl where
   retransmitting : Bool := false
   blksize : Nat := 0
   crcSupported : Bool := false
+  pend : Bytes := []          -- `_pending`: bytes accepted that do not fill a segment yet
 deriving DecidableEq, Repr
 
 structure Sys where
@@ -181,7 +192,9 @@ def init (E : Env) (s : Sys) (idx sub : Nat) (size : Option Nat) (crcReq : Bool)
 /-- continuation stack entries -/
 inductive Item
   | write (b : Bytes) (retx : Bool)   -- a pending `self.write(b)`; `retx` = called from `_retransmit`
+                                      -- (a label for the proofs: `write` no longer tells the two apart)
   | endRetx                           -- `self._retransmitting = False` after the loop of `_retransmit`
+  | feed (rem : Bytes) (offers : List Nat)   -- the caller: `rem` still to be written, sizes of the next offers
 deriving DecidableEq, Repr
 
 /-- what one `write` call did: raised, or returned after pushing further work -/
@@ -227,16 +240,20 @@ def send (E : Env) (s : Sys) (b : Bytes) (last : Bool) : Sys × WRes :=
   let s2 := { s1 with cl := afterSend s1.cl b last }
   if s2.cl.seqno ≥ s2.cl.blksize then blockAck E s2 else (s2, .cont [])
 
-/-- `write(b)`; `retx` says who called (only the treatment of a `None` return differs) -/
-def writeStep (E : Env) (s : Sys) (b : Bytes) (retx : Bool) : Sys × WRes :=
+/-- number of bytes `write(b)` takes (its return value) -/
+def takenLen (s : Sys) (b : Bytes) : Nat := (b.take (7 - s.cl.pend.length)).length
+
+/-- `write(b)`; `retx` says who called (no difference any more) -/
+def writeStep (E : Env) (s : Sys) (b : Bytes) (_retx : Bool) : Sys × WRes :=
   if s.cl.done then (fail s .runtime, .err)
   else
-    let data := b.take 7
-    if s.cl.size.isSome ∧ s.cl.pos + data.length ≥ s.cl.size.getD 0 then send E s data true
-    else if data.length < 7 then (if retx then s else fail s .other, if retx then .cont [] else .err)
-    else send E s data false
+    let data := s.cl.pend ++ b.take (7 - s.cl.pend.length)
+    if s.cl.size.isSome ∧ s.cl.pos + data.length ≥ s.cl.size.getD 0 then
+      send E { s with cl := { s.cl with pend := [] } } data true
+    else if data.length < 7 then ({ s with cl := { s.cl with pend := data } }, .cont [])
+    else send E { s with cl := { s.cl with pend := [] } } data false
 
-/-- the write phase: all pending `write` calls, innermost first -/
+/-- the write phase: all pending `write` calls, innermost first; at the bottom the caller -/
 def run (E : Env) : Nat → Sys → List Item → Sys × Res
   | 0, s, _ => (s, .fuel)
   | _+1, s, [] => (s, .ok)
@@ -245,15 +262,34 @@ def run (E : Env) : Nat → Sys → List Item → Sys × Res
     match writeStep E s b retx with
     | (s1, .err) => (s1, .err)
     | (s1, .cont items) => run E f s1 (items ++ t)
+  | f+1, s, .feed rem offers :: t =>
+    if rem.isEmpty then run E f s t
+    else
+      let b := rem.take (match offers with | [] => rem.length | o :: _ => max o 1)
+      match writeStep E s b false with
+      | (s1, .err) => (s1, .err)
+      | (s1, .cont items) => run E f s1 (items ++ .feed (rem.drop (takenLen s b)) offers.tail :: t)
 
-/-- `close()` -/
-def close (E : Env) (s : Sys) : Sys × Res :=
+/-- the end request of `close()` -/
+def closeEnd (E : Env) (s : Sys) : Sys × Res :=
   let command := REQUEST_BLOCK_DOWNLOAD ||| END_BLOCK_TRANSFER ||| ((7 - s.cl.lastBytesSent) <<< 2)
   let req := command :: (if s.cl.crcSupported then leBytes 2 s.cl.crc else [0, 0]) ++ [0, 0, 0, 0, 0]
   match requestResponse E s req with
   | (s1, .resp r) =>
     if r.getD 0 0 &&& END_BLOCK_TRANSFER = 0 then (fail s1 .comm, .err) else (s1, .ok)
   | (s1, _) => (s1, .err)
+
+/-- `close()`: a partial segment still kept (the size was not known in advance) goes out as the
+    last one — an exception there leaves `close()` before the end request —, then the end request -/
+def close (E : Env) (s : Sys) : Sys × Res :=
+  if s.cl.done = false ∧ s.cl.pend ≠ [] then
+    match send E { s with cl := { s.cl with pend := [] } } s.cl.pend true with
+    | (s1, .err) => (s1, .err)
+    | (s1, .cont items) =>
+      match run E (items.length + 1) s1 items with
+      | (s2, .ok) => closeEnd E s2
+      | (s2, r) => (s2, r)
+  else closeEnd E s
 
 /-- the 7-byte chunks a conforming caller makes `write` see -/
 def chunks7 : Nat → Bytes → List Bytes
@@ -281,6 +317,20 @@ def blockDownload (E : Env) (fuel : Nat) (crcCapable : Bool) (idx sub : Nat) (pa
     (size : Option Nat) (crcReq : Bool) : Sys × Res :=
   blockDownloadFrom E fuel (sys0 crcCapable) idx sub payload size crcReq
 
+/-- the same `with` block for any RawIOBase caller: raw `write` calls with the given offers -/
+def blockDownloadOffersFrom (E : Env) (fuel : Nat) (s0 : Sys) (idx sub : Nat) (payload : Bytes)
+    (size : Option Nat) (crcReq : Bool) (offers : List Nat) : Sys × Res :=
+  match init E s0 idx sub size crcReq with
+  | (s, false) => (s, .err)
+  | (s, true) =>
+    match run E fuel s [Item.feed payload offers] with
+    | (s1, .ok) => close E s1
+    | (s1, r) => ((close E s1).1, r)
+
+def blockDownloadOffers (E : Env) (fuel : Nat) (crcCapable : Bool) (idx sub : Nat) (payload : Bytes)
+    (size : Option Nat) (crcReq : Bool) (offers : List Nat) : Sys × Res :=
+  blockDownloadOffersFrom E fuel (sys0 crcCapable) idx sub payload size crcReq offers
+
 /-- C07: time passes between two transfers — what was held back arrives, and a transfer the
     server still has open runs into the server's own time-out (abort 0x05040000 to the client) -/
 def between (s : Sys) : Sys :=
@@ -294,5 +344,9 @@ def between (s : Sys) : Sys :=
 
 /-- fuel that always suffices for `nLost` lost frames (see `CanopenProofs/C12.lean`) -/
 def fuelFor (payload : Bytes) (nLost : Nat) : Nat := 2 * (payload.length / 7 + 2) + 260 * (nLost + 1)
+
+/-- fuel the C12 driver passes to the `feed` form: every raw `write` call takes one step more -/
+def driverFuel (payload : Bytes) (nLost : Nat) (offers : List Nat) : Nat :=
+  fuelFor payload nLost + payload.length + offers.length + 2
 
 end Canopen.Sdo.BlockDown
